@@ -39,7 +39,7 @@ class DtypeVal:
         return hash(("dtype", self.kind))
 
 
-DTYPE_NAMES = {"O": "O", "object": "O", "float64": "f", "f8": "f", "float": "f", "int64": "i", "i8": "i", "int": "i", "bool": "b"}
+DTYPE_NAMES = {"O": "O", "object": "O", "float64": "f", "f8": "f", "float": "f", "d": "f", "double": "f", "int64": "i", "i8": "i", "int": "i", "bool": "b"}
 
 
 def is_nan(x):
@@ -582,8 +582,8 @@ def make_module(I):
         dt = None
         if isinstance(dtype, BuiltinClass) and dtype.name == "float":
             dt = "float"
-        elif isinstance(dtype, DtypeVal) or (isinstance(dtype, BuiltinClass) and dtype.name == "object"):
-            k = as_dtype_kind(dtype)
+        elif isinstance(dtype, DtypeVal) or isinstance(dtype, str) or (isinstance(dtype, BuiltinClass) and dtype.name == "object"):
+            k = as_dtype_kind(dtype)  # a dtype given by name ("d", "float64", ...): same kinds, unknown names are Unsupported
             if k == "f":
                 dt = "float"
             elif k == "O":
